@@ -86,6 +86,8 @@ N1_BODIES_EXTRA = [
     (('op', 'R', 0, None), ('op', 'X', 1, ('JS', 0))),
     (('op', 'X', 0, None), ('op', 'R', 1, ('JE', 0))),
     (('sub', 2, (('op', 'X', 0, None),)), ('op', 'M', 0, None)),
+    # a long leaf next to a chain of three: the latest-ending relation leaf is two relation steps shallower than the deepest one
+    (('op', 'R', 1, None), ('op', 'X', 0, None), ('op', 'X', 0, None), ('op', 'X', 0, None)),
     # two parallel nested blocks and an operation that follows the first of them
     (('sub', 1, (('op', 'X', 0, None),)), ('sub', 1, (('op', 'R', 1, None),)), ('op', 'X90', 2, ('FB', 0))),
 ]
@@ -151,6 +153,10 @@ class TwoLevelSpace(Space):
         super().__init__(max_len)
         leafs = [('op', k, q, None) for k, q in self.ATOMS]
         inner = [('sub', r, (a,)) for a in leafs for r in reps if r > 1]
+        # inner blocks that branch: the latest-ending leaf is shallower than / different from the deepest one
+        inner += [('sub', r, (('op', 'R', 1, None), ('op', 'X', 0, None), ('op', 'X', 0, None))) for r in reps if r > 1]
+        inner += [('sub', r, (('op', 'R', 0, None), ('op', 'X', 1, ('JS', 0)))) for r in reps if r > 1]
+        inner += [('sub', r, (('op', 'R', 1, None), ('op', 'X', 0, None), ('op', 'X', 0, None), ('op', 'X', 0, None))) for r in reps if r > 1]
         mid_bodies = [(x,) for x in inner] + [(a, x) for a in leafs for x in inner] + [(x, a) for a in leafs for x in inner]
         self._s = list(leafs) + [('sub', r, body) for body in mid_bodies for r in reps]
         self.reps = reps
